@@ -13,6 +13,9 @@
 #include "base_cache.h"
 #include "shmem_allocator.h"
 #include <sstream>
+#include <sys/wait.h>
+#include <unistd.h>
+#include <fcntl.h>
 #include <memory>
 #include "../sim/runner.h"
 #include "cache_model.h"
@@ -61,6 +64,46 @@ struct PageApp : cppcms::application {
 	std::string body(){ response().finalize(); size_t from = out.find("\r\n\r\n"); std::string r = from == std::string::npos ? out : out.substr(from+4); out.clear(); return r; }
 };
 
+// ---------------------------------------------------------------- two worker processes (real fork) on one process-shared cache
+// The parent drives the plan; operations marked proc=1 are carried out by a forked child on ITS cache object (obtained from its copy of the service after the
+// fork, as a pre-forked worker does) and the results come back over a pipe. Both must see one cache: the sequential model does not know who asked.
+namespace twoproc {
+	inline void wr(int fd,const void *p,size_t n){ const char *c = (const char*)p; while(n){ ssize_t k = ::write(fd,c,n); if(k <= 0){ if(k < 0 && errno == EINTR) continue; _exit(9); } c += k; n -= (size_t)k; } }
+	inline bool rd(int fd,void *p,size_t n){ char *c = (char*)p; while(n){ ssize_t k = ::read(fd,c,n); if(k <= 0){ if(k < 0 && errno == EINTR) continue; return false; } c += k; n -= (size_t)k; } return true; }
+	inline void ws(int fd,const std::string &v){ uint32_t n = (uint32_t)v.size(); wr(fd,&n,4); wr(fd,v.data(),n); }
+	inline bool rs(int fd,std::string &v){ uint32_t n = 0; if(!rd(fd,&n,4)) return false; v.resize(n); return n == 0 || rd(fd,&v[0],n); }
+	inline void wset(int fd,const std::set<std::string> &t){ uint32_t n = (uint32_t)t.size(); wr(fd,&n,4); for(auto &x:t) ws(fd,x); }
+	inline bool rset(int fd,std::set<std::string> &t){ uint32_t n = 0; if(!rd(fd,&n,4)) return false; t.clear(); for(uint32_t i=0;i<n;i++){ std::string x; if(!rs(fd,x)) return false; t.insert(x); } return true; }
+	struct Remote : base_cache {
+		int to = -1, from = -1; bool dead = false;
+		void fail(){ dead = true; }
+		bool fetch(std::string const &key,std::string *a,std::set<std::string> *tags,time_t *to_out,uint64_t *gen) override {
+			if(dead) return false; char op = 'F'; wr(to,&op,1); ws(to,key); char hit = 0; std::string v; std::set<std::string> t; int64_t dl = 0; uint64_t g = 0;
+			if(!rd(from,&hit,1) || !rs(from,v) || !rset(from,t) || !rd(from,&dl,8) || !rd(from,&g,8)){ fail(); return false; }
+			if(hit){ if(a) *a = v; if(tags) *tags = t; if(to_out) *to_out = (time_t)dl; if(gen) *gen = g; } return hit != 0; }
+		void store(std::string const &key,std::string const &b,std::set<std::string> const &tr,time_t timeout,uint64_t const *) override { if(dead) return; char op = 'S'; wr(to,&op,1); ws(to,key); ws(to,b); wset(to,tr); int64_t dl = (int64_t)timeout; wr(to,&dl,8); char ack; if(!rd(from,&ack,1)) fail(); }
+		void rise(std::string const &t) override { if(dead) return; char op = 'R'; wr(to,&op,1); ws(to,t); char ack; if(!rd(from,&ack,1)) fail(); }
+		void remove(std::string const &k) override { if(dead) return; char op = 'D'; wr(to,&op,1); ws(to,k); char ack; if(!rd(from,&ack,1)) fail(); }
+		void clear() override { if(dead) return; char op = 'C'; wr(to,&op,1); char ack; if(!rd(from,&ack,1)) fail(); }
+		void stats(unsigned &k,unsigned &t) override { k = t = 0; if(dead) return; char op = 'N'; wr(to,&op,1); uint32_t a = 0,b = 0; if(!rd(from,&a,4) || !rd(from,&b,4)){ fail(); return; } k = a; t = b; }
+		void tick(int64_t s){ if(dead) return; char op = 'T'; wr(to,&op,1); wr(to,&s,8); char ack; if(!rd(from,&ack,1)) fail(); }
+		void quit(){ if(to >= 0){ char op = 'Q'; (void)!::write(to,&op,1); } }
+		void add_ref() override {} bool del_ref() override { return false; }
+	};
+	// the child: serve requests on the cache of its own copy of the service until told to quit
+	inline void serve(cppcms::service &srv,int from,int to){
+		booster::intrusive_ptr<base_cache> cache = srv.cache_pool().get();
+		for(;;){ char op; if(!rd(from,&op,1) || op == 'Q') _exit(0);
+			if(op == 'F'){ std::string k; if(!rs(from,k)) _exit(8); std::string v; std::set<std::string> t; time_t dl = 0; uint64_t g = 0; char hit = cache->fetch(k,&v,&t,&dl,&g) ? 1 : 0; int64_t d = (int64_t)dl; wr(to,&hit,1); ws(to,v); wset(to,t); wr(to,&d,8); wr(to,&g,8); }
+			else if(op == 'S'){ std::string k,v; std::set<std::string> t; int64_t dl; if(!rs(from,k) || !rs(from,v) || !rset(from,t) || !rd(from,&dl,8)) _exit(8); cache->store(k,v,t,(time_t)dl); char ack = 1; wr(to,&ack,1); }
+			else if(op == 'R'){ std::string t; if(!rs(from,t)) _exit(8); cache->rise(t); char ack = 1; wr(to,&ack,1); }
+			else if(op == 'D'){ std::string k; if(!rs(from,k)) _exit(8); cache->remove(k); char ack = 1; wr(to,&ack,1); }
+			else if(op == 'C'){ cache->clear(); char ack = 1; wr(to,&ack,1); }
+			else if(op == 'N'){ unsigned a = 0,b = 0; cache->stats(a,b); uint32_t x = a,y = b; wr(to,&x,4); wr(to,&y,4); }
+			else if(op == 'T'){ int64_t sec; if(!rd(from,&sec,8)) _exit(8); simk::advance_us(sec*1000000); char ack = 1; wr(to,&ack,1); }
+			else _exit(7); } }
+}
+
 struct E2 : Engine {
 	long enum_total(const std::string &prop,bool thorough,int &len){ len = thorough ? 5 : 3; long n = 1; for(int i=0;i<len;i++) n *= 16; return prop == "C08" ? n*2 : n; }
 
@@ -89,6 +132,7 @@ struct E2 : Engine {
 		p["limit"] = limit;
 		int mem_kb = 512 << r.below(4);
 		if(process){ p["mem_kb"] = mem_kb; }
+		bool fork2 = process && r.below(4) == 0; if(fork2) p["fork2"] = 1;   // two worker processes (real fork after the service was constructed) share the cache; small values only (no memory pressure)
 		p["fault_seed"] = (unsigned long long)(r.next() >> 8);
 		int nops = thorough ? 10 + r.below(400) : 8 + r.below(120);
 		if(process && r.below(3) == 0) nops = thorough ? 2000 + r.below(8000) : 300 + r.below(900);   // long fill/clear cycles
@@ -134,6 +178,7 @@ struct E2 : Engine {
 		}
 		// one store in six repeats the exact bytes of an earlier store of the plan (usually with other triggers and another deadline)
 		{ std::vector<size_t> st; for(size_t i=0;i<ops.a.size();i++){ std::string k = ops.a[i].gets("op"); if(k != "store" && k != "fstore" && k != "rec_store") continue; if(!st.empty() && r.below(6) == 0){ size_t j = st[r.below(st.size())]; ops.a[i]["vseed"] = ops.a[j].has("vseed") ? ops.a[j].geti("vseed") : (int64_t)j; ops.a[i]["vlen"] = ops.a[j].geti("vlen"); if(r.below(2)) ops.a[i]["k"] = ops.a[j].geti("k"); } st.push_back(i); } }
+		if(fork2){ for(auto &o:ops.a){ std::string k = o.gets("op"); if(k == "storm") o["op"] = "stats"; if(o.has("vlen") && o.geti("vlen") > 200) o["vlen"] = (int)(o.geti("vlen") % 200); o["proc"] = (int)r.below(2); } p["key_pad"] = J::arr(); }
 		p["ops"] = ops;
 		return p;
 	}
@@ -269,7 +314,7 @@ struct E2 : Engine {
 		{ memset(g_key_pad,0,sizeof(g_key_pad)); const J &kp = plan.get("key_pad"); for(size_t i=0;i<kp.size() && i<64;i++) g_key_pad[i] = (int)std::max<int64_t>(0,std::min<int64_t>(kp.a[i].as_int(),4<<20)); }
 		g_colliding = plan.geti("coll") != 0;
 		unsigned limit = (unsigned)std::max<int64_t>(0,plan.geti("limit")); c.cands.resize(1); c.M().limit = limit;
-		bool iface = plan.geti("iface") && !c.process;
+		bool iface = plan.geti("iface") && !c.process; bool fork2 = c.process && plan.geti("fork2"); twoproc::Remote remote; pid_t worker = -1;
 		const J &ops = plan.get("ops");
 		int maxk = 0;
 		{
@@ -281,6 +326,17 @@ struct E2 : Engine {
 				v["localization"]["locales"][0] = "C"; v["localization"]["backend"] = "std"; v["logging"]["stderr"] = false;
 				srv.reset(new cppcms::service(v)); c.cache = srv->cache_pool().get(); if(ctx){ app.reset(new PageApp(*srv)); app->new_request(); ci = &app->cache(); } else { ci_own.reset(new cppcms::cache_interface(*srv)); ci = ci_own.get(); }
 			}
+			else if(c.process && fork2){
+				// the service (and with it the cache pool) exists before the workers are forked, the cache is first used after the fork - the order of a pre-forking deployment
+				cppcms::json::value v; v["cache"]["backend"] = "process_shared"; v["cache"]["memory"] = (int)std::max<int64_t>(512,plan.geti("mem_kb",512)); v["cache"]["limit"] = (int)limit;
+				v["service"]["api"] = "http"; v["service"]["port"] = 8080; v["service"]["disable_global_exit_handling"] = true; v["service"]["worker_threads"] = 1;
+				v["localization"]["locales"][0] = "C"; v["localization"]["backend"] = "std"; v["logging"]["stderr"] = false;
+				srv.reset(new cppcms::service(v));
+				int p2c[2],c2p[2]; if(pipe2(p2c,0) != 0 || pipe2(c2p,0) != 0){ res.fail("machinery","pipe2 failed"); simk::end(); return res; }   // real pipes (pipe2 is not intercepted): the two processes have separate simulators
+				fflush(stdout); fflush(stderr); worker = fork();
+				if(worker == 0){ ::close(p2c[1]); ::close(c2p[0]); twoproc::serve(*srv,p2c[0],c2p[1]); _exit(0); }
+				::close(p2c[0]); ::close(c2p[1]); remote.to = p2c[1]; remote.from = c2p[0]; c.cnt["two_process_runs"]++;
+				c.cache = srv->cache_pool().get(); c.cache->clear(); }
 			else if(c.process){ size_t mem = (size_t)std::max<int64_t>(512,plan.geti("mem_kb",512)) * 1024; c.cache = cppcms::impl::process_cache_factory(mem,limit); do_clear(c); c.max_block0 = cppcms::impl::process_settings::process_memory->max_available(); }
 			else c.cache = cppcms::impl::thread_cache_factory(limit);
 			auto madd = [&](const std::string &t){ for(auto &s:mrecs) s.insert(t); mtrig.insert(t); };
@@ -289,13 +345,15 @@ struct E2 : Engine {
 				int k = (int)(((o.geti("k") % 1000) + 1000) % 1000); if(k > maxk) maxk = k; std::string key = key_name(k);
 				auto trigs = [&]{ std::set<std::string> tr; const J &ta = o.get("trig"); for(size_t j=0;j<ta.size();j++) tr.insert(trig_name((int)(((ta.a[j].as_int() % 1000)+1000)%1000))); return tr; };
 				std::string tname = trig_name((int)(((o.geti("t") % 1000)+1000)%1000));
+				booster::intrusive_ptr<base_cache> local_cache = c.cache; bool remote_op = fork2 && o.geti("proc") != 0; if(remote_op){ c.cache = &remote; c.cnt["ops_by_second_process"]++; }
+				struct Back { Ctx &c; booster::intrusive_ptr<base_cache> l; ~Back(){ c.cache = l; } } back{c,local_cache};
 				int vlen = (int)std::min<int64_t>(o.geti("vlen"),64*1024*1024); int vseed = o.has("vseed") ? (int)o.geti("vseed") : (int)i;   // vseed: the very bytes of an earlier store, again (under other triggers / another deadline)
 				if(op == "store") do_store(c,key,make_val(vseed,vlen),trigs(),c.now() + o.geti("dl"));
 				else if(op == "fetch") do_fetch(c,key,(int)o.geti("how"));
 				else if(op == "rise") do_rise(c,tname);
 				else if(op == "remove"){ if(c.M().m.count(key)) { c.cnt["remove_hit"]++; c.invalidated = true; } c.cache->remove(key); for(auto &m:c.cands) m.remove(key); }
 				else if(op == "clear") do_clear(c);
-				else if(op == "tick"){ int64_t s = std::max<int64_t>(0,std::min<int64_t>(o.geti("s"),100000)); simk::advance_us(s*1000000); c.cnt["tick"]++; for(auto &kv:c.M().m) if(kv.second.deadline < c.now()) { c.invalidated = true; break; } }
+				else if(op == "tick"){ int64_t s = std::max<int64_t>(0,std::min<int64_t>(o.geti("s"),100000)); simk::advance_us(s*1000000); if(fork2) remote.tick(s); c.cnt["tick"]++; for(auto &kv:c.M().m) if(kv.second.deadline < c.now()) { c.invalidated = true; break; } }
 				else if(op == "stats") { c.cnt["stats"]++; }
 				else if(op == "storm" && c.process){ // a burst of stores whose long keys exhaust the segment while a node is being built, then a clear
 					int n = (int)std::max<int64_t>(1,std::min<int64_t>(o.geti("n",20),300)); size_t klen = (size_t)std::max<int64_t>(16,std::min<int64_t>(o.geti("klen",100000),4<<20));
@@ -341,6 +399,7 @@ struct E2 : Engine {
 				if(c.inconclusive) break;
 			}
 			if(res.ok && !c.inconclusive) final_sweep(c,std::min(maxk+1,64));
+			if(fork2){ if(remote.dead) res.fail("worker-process-died","the second worker process stopped answering"); remote.quit(); int st = 0; if(worker > 0) waitpid(worker,&st,0); if(res.ok && !(WIFEXITED(st) && WEXITSTATUS(st) == 0)) res.fail("worker-process-died","the second worker process ended with status " + std::to_string(st)); ::close(remote.to); ::close(remote.from); }
 			recs.clear(); ci_own.reset(); ci = nullptr; app.reset(); c.cache = 0; srv.reset();
 		}
 		res.hash = simk::trace_hash() ^ runner::fnv(std::to_string(c.cnt["fetch_hit"]) + ":" + std::to_string(c.cnt["fetch_miss"]));
